@@ -257,7 +257,12 @@ def settle(rep, prop, cands, confirm, known, cap=8, describe=None):
         cs = sorted(cs, key=simplicity)
         for c in cs[:cap]:
             v, doc = confirm(c, known)
-            rep.cov['traces_validated_against_impl'] += 1
+            if isinstance(doc, dict) and not any(str(k).startswith('native') for k in doc):
+                # roles without a native replay route (internal functions with no public observation point): said in the
+                # replay document; everything else is replayed against the real build before it is reported
+                doc['native_replay'] = 'none available for this role: the verdict rests on the symbolic execution of the MIR'
+            else:
+                rep.cov['traces_validated_against_impl'] += 1
             verdicts.setdefault(v, []).append(doc)
         if 'violation' in verdicts:
             rep.violations.append(C.save_replay(prop, key[1], verdicts['violation'][0]))
